@@ -742,17 +742,27 @@ func (e *env) classify(q *query, cached, newPart bool, tr *pruning.TimeRange, lo
 		if !ok || tr == nil {
 			return false
 		}
-		return tr.End.Equal(utc(in)) || (!endOnly && tr.Start.Equal(utc(in)))
+		if endOnly {
+			return tr.End.Equal(utc(in))
+		}
+		return tr.Start.Equal(utc(in))
+	}
+	// a comparison supplies the bound of its own direction (>=, > : start; <, <= : end; BETWEEN: lo start, hi end)
+	atomSupplies := func(a *batom) bool {
+		if a.between {
+			return supplies(a.r, false) || supplies(a.r2, true)
+		}
+		return supplies(a.r, a.op == "lt" || a.op == "le")
 	}
 	p.atoms(func(a *batom) {
-		if (a.col == 'e' || a.col == 's') && (supplies(a.r, false) || (a.between && supplies(a.r2, false))) {
+		if (a.col == 'e' || a.col == 's') && atomSupplies(a) {
 			suffix = true
 		}
 		for i, r := range []rhs{a.r, a.r2} {
 			if i == 1 && !a.between {
 				break
 			}
-			if r.kind == 'R' && r.unit == "month" && r.sp != 3 && supplies(r, false) && e.monthDiffers(r) {
+			if r.kind == 'R' && r.unit == "month" && r.sp != 3 && atomSupplies(a) && e.monthDiffers(r) {
 				// known class: Go AddDate(0,n,0) overflows the day of month where DuckDB clamps it
 				month = true
 			}
